@@ -157,6 +157,15 @@ func (m *connIDGenerator) SetHandshakeComplete(connIDExpiry monotime.Time) {
 	}
 }
 
+// NextRetireTime returns the time at which the next retired connection ID is due for removal.
+// It returns the zero value if no connection ID is waiting to be removed.
+func (m *connIDGenerator) NextRetireTime() monotime.Time {
+	if len(m.connIDsToRetire) == 0 {
+		return 0
+	}
+	return m.connIDsToRetire[0].t // sorted by t
+}
+
 func (m *connIDGenerator) RemoveRetiredConnIDs(now monotime.Time) {
 	if len(m.connIDsToRetire) == 0 {
 		return
